@@ -1,6 +1,7 @@
 package checks
 
 import (
+	"bytes"
 	vmcommon "github.com/ElrondNetwork/elrond-vm-common"
 
 	"verif/engine/spec"
@@ -173,6 +174,13 @@ func accountMenu(w *world.World, o menuOpts) []world.Action {
 				acts = append(acts, uni.Call(c, k, vmcommon.BuiltInFunctionChangeOwnerAddress, nw))
 			}
 			acts = append(acts, uni.Call(c, k, vmcommon.BuiltInFunctionClaimDeveloperRewards))
+			if string(c) == string(uni.A0) || string(c) == string(uni.S0) {
+				// unusual new owners: the caller itself (the current owner where it owns k), the
+				// contract itself, the 32-byte zero address
+				for _, nw := range [][]byte{c, k, make([]byte, 32)} {
+					acts = append(acts, uni.Call(c, k, vmcommon.BuiltInFunctionChangeOwnerAddress, nw))
+				}
+			}
 			if vmcommon.IsSmartContractAddress(c) {
 				// a contract reaches a remote contract through an asynchronous call
 				as := uni.Call(c, k, vmcommon.BuiltInFunctionClaimDeveloperRewards)
@@ -187,6 +195,11 @@ func accountMenu(w *world.World, o menuOpts) []world.Action {
 				continue
 			}
 			acts = append(acts, uni.Call(c, target, vmcommon.BuiltInFunctionSetUserName, []byte("nm")))
+			if string(c) == string(uni.D0) {
+				acts = append(acts, uni.Call(c, target, vmcommon.BuiltInFunctionSetUserName, []byte{}),
+					uni.Call(c, target, vmcommon.BuiltInFunctionSetUserName, bytes.Repeat([]byte("n"), 1000)),
+					uni.Call(c, target, vmcommon.BuiltInFunctionSetUserName, []byte("nm"), []byte("extra")))
+			}
 		}
 		acts = append(acts, uni.Call(c, c, vmcommon.BuiltInFunctionSaveKeyValue, []byte("k"), []byte("v")))
 		acts = append(acts, uni.Call(c, uni.B0, vmcommon.BuiltInFunctionSaveKeyValue, []byte("k"), []byte("w")))
